@@ -14,10 +14,43 @@ NOTES = 'All checks: ./check <ID> --tier quick|thorough, honour VERIF_SEED, writ
 EXPL = 'generated-input search (Hypothesis strategies and/or exhaustive enumeration of a finite generated domain) against an explicit independent oracle'
 
 CHECKS = {
+    'C01': {'level': 'exploration', 'technique': 'Hypothesis-generated KEXINIT / SSH-1 messages through the whole CLI vs expected report derived from the wire bytes', 'ref': 'DESIGN.md §4 C01',
+            'text': 'Thousands of generated peers (database, gss-*, unknown, non-UTF-8, duplicate, empty, very long names; asymmetric directions; both roles; six renderings; probes answered) are audited through the real CLI code and the names shown per category are compared, in order and multiplicity, with the names on the wire decoded by an independent codec. Random search, so absence is not claimed; the SSH-1 mask space is exhaustive in the thorough tier.',
+            'note': 'trusts engine A and vlib/wire.py; names are RFC 4251 names; either advertised direction accepted for ciphers/MACs but the same one in text and JSON'},
+    'C02': {'level': 'exploration', 'technique': 'Hypothesis peers x option sets vs exit status computed from table classes; enumerated broken handshakes', 'ref': 'DESIGN.md §4 C02',
+            'text': 'Exit status of the whole CLI is compared with the worst severity computed independently from the rating table (plus Terrapin context and unknown names) for generated peers under 14 option sets, both roles; every handshake-breaking fault (every KEXINIT truncation offset in thorough) must yield a status outside {0,2,3} and no algorithm report; policy audits must exit 0 iff passed.',
+            'note': 'trusts engine A and the table-class reference; no probe answered in the rated family'},
+    'C03': {'level': 'exploration', 'technique': 'exhaustive over database names + Hypothesis placements vs notes computed from the table entry; metamorphic position/role/view; --lookup', 'ref': 'DESIGN.md §4 C03',
+            'text': 'Every database name is audited (text and JSON) at generated positions among generated neighbours, in both roles, and looked up; the notes shown must equal the table entry plus the documented Terrapin context; unknown names must be flagged in every occurrence.',
+            'note': 'trusts engine A, the report parsers and the since-text reference'},
+    'C04': {'level': 'exploration', 'technique': 'exhaustive enumeration of the 576 role/marker/class shapes instantiated over all class members vs the published rule', 'ref': 'DESIGN.md §4 C04',
+            'text': 'All 576 combinations of role x marker x ChaCha subset x #CBC x #ETM x other are instantiated with database names of each class (every member in thorough), marker at varying positions, and with unknown names of the same shape; the set of algorithms carrying the Terrapin warning, the advisory note and the add-recommendations are compared with a reference function of the published rule.',
+            'note': 'class membership by name shape; symmetric lists only'},
+    'C05': {'level': 'exploration', 'technique': 'Hypothesis peers: -M then -P on the same peer and on every single-attribute perturbation; all built-in policies', 'ref': 'DESIGN.md §4 C05',
+            'text': 'For generated peers (names with = + / @, RSA/cert/CA/GEX sizes, both roles, asymmetric directions) the CLI writes a policy, must pass it on the same peer and fail it, naming the field, on each applicable perturbation; all 47 built-in policies are run against a peer configured as listed with each optional host key.',
+            'note': 'trusts engine A; perturbation sizes on a 1024-bit grid'},
+    'C06': {'level': 'exploration', 'technique': 'exhaustive small universe + Hypothesis large instances vs reference model of the documented matching rules; metamorphic shrink/grow', 'ref': 'DESIGN.md §4 C06',
+            'text': 'Policy text is generated, parsed by the tool and evaluated against generated peers; verdict, error fields and error contents are compared with a reference model written from the statement; the small universe (24 880 pairs) is enumerated completely; passing pairs stay passing under subset-deletion and key growth; a sample goes through the CLI in text and JSON.',
+            'note': 'reference model in checks/c06.py; subset mode + optional host keys accepted either way'},
+    'C10': {'level': 'exploration', 'technique': 'enumeration + Hypothesis + atheris round-trip/differential against an independent RFC 4251/4253 codec', 'ref': 'DESIGN.md §4 C10',
+            'text': 'Every encoder/decoder pair of the tool is compared with vlib/wire.py on a dense integer window, +-2^k+d up to k=8192, all boundary word patterns, random big integers of both signs, every payload length 0..4096 and generated name-lists / KEXINIT / SSH-1 messages; thorough adds 3.2 M coverage-guided executions of decode->encode->decode.',
+            'note': 'trusts vlib/wire.py (cross-checked against int.to_bytes / zlib.crc32)'},
+    'C11': {'level': 'exploration', 'technique': 'enumerated size grid and CA matrix through the whole CLI vs sizes known from the generated blobs', 'ref': 'DESIGN.md §4 C11',
+            'text': 'The server answers host-key probes with blobs built by the harness, so true sizes, CA types and fingerprints are known; the size grid (512..16384 step 64, every multiple of 8 near both thresholds), every RSA-name subset/order, every CA kind and every probe-capable first key exchange are audited in JSON and verbose text.',
+            'note': 'two recorded findings (sizes = 8 mod 16; P-521 CA shown as 528) are matched by narrow signatures'},
     'C12': {'level': 'exploration', 'technique': 'exhaustive enumeration of server moduli policies + fault family vs reference model', 'ref': 'DESIGN.md §4 C12',
-            'text': 'Every one of the 9 216 stated moduli policies (thorough; seeded sample in quick) is audited through the whole CLI, text and JSON, and the reported size / notes are compared with a reference computed from the policy and the documented probe sequence; plus faults in the GEX phase and an extension grid. Exhaustive over the stated finite domain, so a wrong size or threshold for any stated policy is found; absence outside it is not claimed.',
-            'note': 'trusts engine A (virtual network) and the reference model of the three selection styles; moduli are 2^(n-1)+1'},
+            'text': 'Every one of the 9 216 stated moduli policies is audited through the whole CLI, text and JSON (both tiers), and the reported size / notes are compared with a reference computed from the policy and the documented probe sequence; plus faults in the GEX phase and an extension grid including sizes next to the thresholds. Exhaustive over the stated finite domain.',
+            'note': 'trusts engine A and the reference model of the three selection styles; moduli are 2^(n-1)+1'},
+    'C14': {'level': 'exploration', 'technique': 'Hypothesis pairs/triples + exhaustive small grid vs tuple-of-int order; CLI banners around every first-appeared version', 'ref': 'DESIGN.md §4 C14',
+            'text': 'compare_version / between_versions / Timeframe are checked for agreement with numeric order, antisymmetry and transitivity on generated version strings (components 0..12, 99..101, years; product patch suffixes); at CLI level additions recommended for a banner version must be exactly those whose first-appeared version is numerically <= it.',
+            'note': 'prefix-related and numerically equal versions only need the order axioms'},
+    'C15': {'level': 'exploration', 'technique': 'Hypothesis peers rendered under all 36 option sets, cross-compared (metamorphic) and against the table reference; real process under 4 hash seeds', 'ref': 'DESIGN.md §4 C15',
+            'text': 'Each generated peer is audited under every combination of -b, -v, -n, -l and -j/-jj; exit status, findings, level filtering (subsequence of lines), colour-stripped equality, JSON well-formedness/equality and repeatability are checked; a sample is run as the real process under PYTHONHASHSEED 0/1/2/12345 and must equal engine A byte for byte.',
+            'note': 'recommendation section compared as a multiset between colour and no-colour'},
+    'C17': {'level': 'exploration', 'technique': 'exhaustive enumeration of the knowledge tables as imported from the tree', 'ref': 'DESIGN.md §4 C17',
+            'text': 'Every rating-database entry, every cross-reference from policies / probe tables / DHEat tables, every built-in policy (statically and through a standard audit of a peer configured as listed, with each optional host key) is checked; complete for the tables in the tree.',
+            'note': 'broken-primitive patterns are listed in checks/c17.py; three SSH-1 entries are recorded findings'},
 }
 
 NOT_APPLICABLE = {p: 'check not built yet in this round (design in DESIGN.md §4); to be claimed when its check exists' for p in
-                  ['C01', 'C02', 'C03', 'C04', 'C05', 'C06', 'C07', 'C08', 'C09', 'C10', 'C11', 'C13', 'C14', 'C15', 'C16', 'C17', 'C18', 'C19']}
+                  ['C07', 'C08', 'C09', 'C13', 'C16', 'C18', 'C19']}
